@@ -114,6 +114,32 @@ def scenarios(flavour, n_nodes, max_edges, provenance=False):
                 yield (flavour, op), scen
 
 
+def two_op_scenarios(flavour, n_nodes, max_edges):
+    """connect* ; op1 ; dump ; op2 ; dump - the contract is asserted for op2 on the state op1 left behind, so a
+    divergence op1 causes in state the node API cannot show directly (list split, capacity) gets a second chance"""
+    for seq in canon_sequences(n_nodes, max_edges):
+        pre = [['connect', u, v, {'s': f'e{j}'}] for j, (u, v) in enumerate(seq)]
+        insts = op_instances(seq, n_nodes)
+        for (op1, u1, v1) in insts:
+            if op1 == 'isolate':
+                st1 = ['isolate', u1]
+            elif op1 == 'disconnect':
+                st1 = ['disconnect', u1, v1]
+            else:
+                st1 = [op1, u1, v1, {'s': 'emid'}]
+            seq1 = seq + ([(u1, v1)] if op1 in ('connect', 'try_connect') else [])
+            for (op, u, v) in op_instances(seq1, n_nodes):
+                if op == 'isolate':
+                    step = ['isolate', u]
+                elif op == 'disconnect':
+                    step = ['disconnect', u, v]
+                else:
+                    step = [op, u, v, {'s': 'enew'}]
+                yield (flavour, op), {'flavour': flavour, 'nodes': [[i, 100 + i] for i in range(n_nodes)],
+                                      'steps': pre + [st1, ['dump'], step, ['dump']],
+                                      'meta': {'op': op, 'u': u, 'v': v, 'seq': seq, 'handle': 'orig', 'family': 'two-op', 'first': st1[:3]}}
+
+
 def hub_scenarios(flavour, n_edges=5, with_removal=False):
     """pre-states in which node 0 has n_edges incident edges (every orientation, parallel edges, self-loops):
     list lengths beyond the small-Vec sizes; optionally one removal before the operation under test"""
@@ -339,6 +365,7 @@ def run(prop, tier, seed):
         items += [it for it in scenarios(fl, 4, n4_edges) if max([max(u, v) for u, v in it[1]['meta']['seq']] + [it[1]['meta']['u'], it[1]['meta']['v'] or 0]) == 3]
         if prop == 'C03':
             items += list(scenarios(fl, n_nodes, prov_edges, provenance=True))
+        items += list(two_op_scenarios(fl, n_nodes, 1 if tier == 'quick' else 2))
         # high-degree hub states (5 incident edges; thorough: 6, and with a removal before the operation)
         items += list(hub_scenarios(fl, 5))
         if tier != 'quick':
@@ -346,7 +373,7 @@ def run(prop, tier, seed):
             items += list(hub_scenarios(fl, 5, with_removal=True))
     return scenario_check(
         prop, tier, seed, items, evaluate_ctx, sig_of,
-        bounds={'nodes': n_nodes, 'max_pre_state_edges': max_edges, 'four_node_states_max_edges': n4_edges, 'hub_states': 'node 0 with 5 incident edges of every orientation' + ('' if tier == 'quick' else '; also 6 edges, and 5 edges followed by one removal'), 'operations_per_history_step': 1,
+        bounds={'nodes': n_nodes, 'max_pre_state_edges': max_edges, 'four_node_states_max_edges': n4_edges, 'hub_states': 'node 0 with 5 incident edges of every orientation' + ('' if tier == 'quick' else '; also 6 edges, and 5 edges followed by one removal'), 'operations_per_history_step': 1, 'two_operation_histories_max_pre_edges': 1 if tier == 'quick' else 2,
                 'flavours': list(flavours), 'handle_provenance_sweep_max_edges': prov_edges if prop == 'C03' else 0,
                 'symbolic': 'all edge values (z3 Int), one fresh value for the operation',
                 'outside': 'more than 4 nodes, more pre-state edges, dropped neighbours'},
